@@ -371,6 +371,8 @@ class Evaluator:
             return args[0]
         if ft in ('list', 'tuple', 'set', 'frozenset') and not args:
             return ()
+        if ft == 'reversed' and len(args) == 1 and isinstance(args[0], tuple) and not is_sym_bool(args[0]):
+            return tuple(reversed(args[0]))
         if ft == 'enumerate' and len(args) == 1 and isinstance(args[0], tuple) and not is_sym_bool(args[0]):
             return tuple((i, x) for i, x in enumerate(args[0]))
         if ft == 'range' and args and all(isinstance(a, int) and not isinstance(a, bool) for a in args) and abs(args[-1 if len(args) < 3 else 1]) < 4096:
